@@ -610,12 +610,19 @@ pub fn supervise(pi: PropInfo, args: SupArgs, replay_files: Vec<PathBuf>, simpli
         t0.elapsed().as_secs_f64()
     );
     if !violations.is_empty() {
-        // one line per distinct signature
+        // one line (and one kept replay file) per distinct signature
         let mut seen = BTreeSet::new();
+        let mut kept = BTreeSet::new();
         for (sig, msg, path) in &violations {
             if seen.insert(sig.clone()) {
                 println!("VIOLATION property={id} replay={path}");
                 println!("  sig={sig} {msg}");
+                kept.insert(path.clone());
+            }
+        }
+        for (_, _, path) in &violations {
+            if !kept.contains(path) && path.starts_with(&format!("{VERIF}/replays/")) && !replay_files.iter().any(|f| f.to_string_lossy() == *path) {
+                let _ = std::fs::remove_file(path);
             }
         }
         return 1;
